@@ -291,6 +291,13 @@ func vfRouterHistory(t *testing.T, rng *rand.Rand, nops int, style int) (lit str
 			}
 			script = append(script, forced{r: 0, p: 0}, forced{r: 70}, forced{r: 90, d: time.Second}, forced{r: 70})
 		}
+		if style == 3 {
+			// leave a topic, publish to it from outside (fanout), join again while the unsubscribe backoff is running
+			for p := 0; p < 4; p++ {
+				script = append(script, forced{r: 0, p: p})
+			}
+			script = append(script, forced{r: 30, tp: 0}, forced{r: 70}, forced{r: 40, tp: 0}, forced{r: 62, tp: 0}, forced{r: 30, tp: 0}, forced{r: 70})
+		}
 		connected := map[int]bool{}
 		var steps []string
 		var recSteps []map[string]any
@@ -389,7 +396,7 @@ func vfRouterHistory(t *testing.T, rng *rand.Rand, nops int, style int) (lit str
 				// Join keeps the surviving fanout peers first; the model separates them itself: pass the grafted set
 				emit(fmt.Sprintf("OJoinObs %d [%s]", tp, strings.Join(chosen, "; ")), map[string]any{"scores": sc, "pen": 0})
 			case r < 42:
-				tp := rng.Intn(ntopics)
+				tp := pickT(ntopics)
 				vfEval(n.ps, func() { n.gs.Leave(vfTopic(tp)) })
 				n.tr.take()
 				emit(fmt.Sprintf("OLeave %d", tp), map[string]any{"scores": sc, "pen": 0})
@@ -431,6 +438,33 @@ func vfRouterHistory(t *testing.T, rng *rand.Rand, nops int, style int) (lit str
 				n.recv(p, &pb.RPC{Control: &pb.ControlMessage{Prune: []*pb.ControlPrune{pr}}})
 				n.tr.take()
 				emit(fmt.Sprintf("ORecvPrune %d [(%d, %s)]", p, tp, bo), map[string]any{"scores": sc, "pen": 0})
+			case r < 64:
+				// a publication to a topic that is not joined: the fanout set is picked (when empty) and kept alive
+				tp := pickT(ntopics)
+				joined := false
+				var before, after []int
+				vfEval(n.ps, func() {
+					_, joined = n.gs.mesh[vfTopic(tp)]
+					if joined {
+						return
+					}
+					for p := range n.gs.fanout[vfTopic(tp)] {
+						before = append(before, n.tr.idx(p))
+					}
+					for p := range n.gs.getFanoutPeersForPublishing(vfTopic(tp)) {
+						after = append(after, n.tr.idx(p))
+					}
+				})
+				if joined {
+					continue
+				}
+				n.tr.take()
+				var chosen []int
+				if len(before) == 0 {
+					chosen = after
+					sort.Ints(chosen)
+				}
+				emit(fmt.Sprintf("OFanoutPub %d %s", tp, vfNats(chosen)), map[string]any{"scores": sc, "pen": 0})
 			case r < 85:
 				var fanBefore map[string]map[peer.ID]struct{}
 				vfEval(n.ps, func() {
@@ -520,11 +554,11 @@ func TestVF_Router(t *testing.T) {
 	rng := vfRng(7)
 	ncases := vfN(160, 2000)
 	for c := 0; c < ncases; c++ {
-		style := []int{0, 0, 0, 1, 1, 2}[c%6]
+		style := []int{0, 0, 0, 1, 1, 2, 3, 0}[c%8]
 		lit, rec, nt := vfRouterHistory(t, rng, 25+rng.Intn(50), style)
 		cs.add(lit, rec, nt)
 		cs.kind(fmt.Sprintf("style%d", style))
 	}
-	cs.flush("random router histories on a real gossipsub node with a parked heartbeat: fake peers of every protocol version with inbound/outbound direction, remote subscriptions, GRAFT / PRUNE (with and without backoff, unknown topics), Join / Leave, integer scores moving across 0 and the opportunistic-graft threshold, heartbeats, virtual time landing exactly at and one nanosecond around the backoff deadlines, random valid degree parameters incl. the all-zero bootstrapper setting; after EVERY operation the drained GRAFT/PRUNE, the behaviour-penalty delta and a snapshot of mesh / fanout / backoff are compared with the model. " +
+	cs.flush("random router histories on a real gossipsub node with a parked heartbeat: fake peers of every protocol version with inbound/outbound direction, remote subscriptions, GRAFT / PRUNE (with and without backoff, unknown topics), Join / Leave, publications to topics that are not joined (fanout selection; also between a Leave and a Join inside the unsubscribe backoff), integer scores moving across 0 and the opportunistic-graft threshold, heartbeats, virtual time landing exactly at and one nanosecond around the backoff deadlines, random valid degree parameters incl. the all-zero bootstrapper setting; after EVERY operation the drained GRAFT/PRUNE, the behaviour-penalty delta and a snapshot of mesh / fanout / backoff are compared with the model. " +
 		"non-trivial = at least one heartbeat that pruned somebody; distinct = hash of the whole history")
 }
